@@ -912,3 +912,27 @@ func bitsRead(p *Prog, fn *ssa.Function, T *types.Named, seen map[*ssa.Function]
 	uses(recv)
 	return res, ok
 }
+
+// ruleSortedList: a [...]rune / []int literal is strictly increasing (bisection precondition).
+func ruleSortedList(p *Prog, r *Report, le *litEval, pkg, name string, floor int) {
+	const rule = "R-TAB/list"
+	lv := le.Var(p.Obj(pkg, name).(*types.Var))
+	if lv.Kind != LList {
+		undecided("P-LIT: %s.%s is not a list literal", pkg, name)
+	}
+	r.Instance(rule, pkg+"."+name)
+	r.Floor(rule+"("+name+")", len(lv.Elems), floor)
+	prev := int64(-1 << 62)
+	for i, e := range lv.Elems {
+		x, ok := e.Int()
+		if !ok {
+			undecided("P-LIT: %s.%s[%d] is not constant", pkg, name, i)
+		}
+		if x <= prev {
+			r.Bad(rule, pkg+"."+name, p.Pos(e.Pos), fmt.Sprintf("entry %d (%#x) is not above entry %d (%#x): the bisection over %s misses entries", i, x, i-1, prev, name))
+			return
+		}
+		prev = x
+	}
+	r.OK(rule, pkg+"."+name, p.Pos(lv.Pos), fmt.Sprintf("%d entries strictly increasing", len(lv.Elems)))
+}
